@@ -215,9 +215,17 @@ def shrink(mod, case, clause, budget=400, log=None):
     used = [0]
     frozen = set(getattr(mod, 'SHRINK_KEEP', ()))
 
+    valid = getattr(mod, 'valid', None)
+
     def fails(c):
         if used[0] >= budget:
             return False
+        if valid is not None:
+            try:
+                if not valid(c):
+                    return False
+            except Exception:
+                return False
         used[0] += 1
         try:
             r = safe_run(mod, c)
